@@ -289,18 +289,18 @@ Proof.
     + apply feq_true in E. subst. rewrite E0 in IH. rewrite IH. now rewrite E0.
     + exact IH.
 Qed.
-Lemma find_del_matching pat m k : find k (del_matching pat m) = if pmatch pat k then None else find k m.
+Lemma find_del_matching pat m k : find k (del_matching pat m) = if pmatch_esc pat k then None else find k m.
 Proof.
-  unfold find, del_matching. rewrite (assoc_filter_key (fun x => negb (pmatch pat x))). now destruct (pmatch pat k).
+  unfold find, del_matching. rewrite (assoc_filter_key (fun x => negb (pmatch_esc pat x))). now destruct (pmatch_esc pat k).
 Qed.
 Lemma keys_filter_key {A} (f : bytes -> bool) (l : list (bytes * A)) :
   keys (filter (fun kv => f (fst kv)) l) = filter f (keys l).
 Proof. unfold keys. induction l as [|[k v] r IH]; cbn; [reflexivity|]. destruct (f k); cbn; now rewrite IH. Qed.
 Lemma nodup_del_matching pat m : NoDup (keys m) -> NoDup (keys (del_matching pat m)).
-Proof. intros H. unfold del_matching. rewrite (keys_filter_key (fun x => negb (pmatch pat x))). now apply NoDup_filter. Qed.
+Proof. intros H. unfold del_matching. rewrite (keys_filter_key (fun x => negb (pmatch_esc pat x))). now apply NoDup_filter. Qed.
 
 (* removeFiles: afterwards no member matches the line; nothing else changes *)
-Definition omit_hit (nm : bytes) (w : bool) (k : bytes) : bool := if w then pmatch nm k else feq nm k.
+Definition omit_hit (nm : bytes) (w : bool) (k : bytes) : bool := if w then pmatch_esc nm k else feq nm k.
 Lemma remove_files_find nm w m m' : remove_files nm w m = Ok m' ->
   forall k, find k m' = if omit_hit nm w k then None else find k m.
 Proof.
